@@ -49,6 +49,8 @@ def gen_plan(rng, tier, run):
     mode = "json" if rng.random() < 0.6 else "file"
     plan = {"mode": mode,
             # process model: every invocation in a fresh module set (= its own process) or all in one process
+            # how paths are spelled on the command line: absolute, relative to the cwd, with a trailing slash
+            "path_style": rng.choice(["abs", "abs", "abs", "rel", "slash"]),
             "fresh": rng.random() < 0.12,
             "bufsize": rng.choice([0, 64, 8192, None, None]),
             "stdout_bufsize": rng.choice([0, 8192, None]),
@@ -292,6 +294,10 @@ def execute(plan):
         if plan.get("plugins"):
             bump("plans_with_fake_plugins")
         w.fresh_per_run = bool(plan.get("fresh"))
+        w.path_style = plan.get("path_style", "abs")
+        w.rel_dot = bool(plan.get("fresh"))
+        if w.path_style != "abs":
+            bump("path_style:" + w.path_style)
         bump("process_model:fresh" if w.fresh_per_run else "process_model:shared")
         ref0, ref0_snap = run_once(w, plan, originals, None, reference=True)
         if ref0.crashed or ref0.exc:
